@@ -108,9 +108,12 @@ def ord_key(t, v):
 
 
 def gen_decl(r, kind_choice=None, avoid=()):
-    nf = r.randint(1, 6)
+    nf = r.randint(1, 6) if r.random() < 0.5 else r.randint(3, 6)
     fields = []
     ftypes = [t for t in FIELD_TYPES if ("field." + t) not in avoid]
+    if r.random() < 0.5:
+        # half of the declarations are fully orderable/hashable, so that the derived Ord / Hash are exercised on wide records too
+        ftypes = [t for t in ftypes if t in ("int", "str", "bool", "list_int", "list_str", "nested")] or ftypes
     for i in range(nf):
         fields.append(("f%d" % i, r.choice(ftypes)))
     has_float = any(t == "float" for _, t in fields)
@@ -124,9 +127,10 @@ def gen_decl(r, kind_choice=None, avoid=()):
     if can_hash:
         derives.append("Hash")
     r.shuffle(derives)
-    kind = kind_choice or r.choice(["model", "model", "class"])
-    if "class.from_json" in avoid:
-        kind = "model"
+    kind = kind_choice or r.choice(["model", "class"])
+    no_rt = False
+    if kind == "class" and "class.from_json" in avoid:
+        no_rt = True  # `Class.from_json(...)` does not build on this tree (open finding of C02): classes are checked without the round trip
     defaults = {}
     if r.random() < 0.45:
         # trailing fields may carry defaults - including `= None` for options and `= []` for lists
@@ -142,13 +146,13 @@ def gen_decl(r, kind_choice=None, avoid=()):
             if r.random() < 0.5:
                 break
     levels = None
-    if kind == "class" and len(fields) >= 2 and "class.extends" not in avoid and r.random() < 0.5:
+    if kind == "class" and len(fields) >= 2 and "class.extends" not in avoid and r.random() < 0.6:
         # a class hierarchy: the declared field order is ancestors first
         n = 3 if len(fields) >= 3 and r.random() < 0.6 else 2
         cuts = sorted(r.sample(range(1, len(fields)), n - 1))
         levels = [fields[a:b] for a, b in zip([0] + cuts, cuts + [len(fields)])]
     return {"kind": kind, "name": "Rec", "fields": fields, "derives": derives, "can_ord": can_ord, "can_hash": can_hash, "has_float": has_float, "defaults": defaults,
-            "levels": levels}
+            "levels": levels, "no_rt": no_rt}
 
 
 def ctor(decl, vals):
@@ -204,6 +208,8 @@ def build_program(r, decl, nvals):
         main.append('println("J%d")' % i)
         main.append("println(json_stringify(v%d))" % i)
         exp.append(("json", i, v))
+        if decl.get("no_rt"):
+            continue
         main += ["match %s.from_json(json_stringify(v%d)):" % (decl["name"], i), "    Ok(w%d) =>" % i]
         if "Eq" in decl["derives"]:
             main += ["        if w%d == v%d:" % (i, i), '            println("RT%d same")' % i, "        else:", '            println("RT%d differ")' % i]
